@@ -220,20 +220,19 @@ def inputField (e : Exp) (inputless : Bool) : Option (List Nat) :=
   | some s => if s ≠ [] ∧ inputless = false then some s else none
   | none => none
 
+/-- `if present: payload[k] = v` -/
+def oset (d : Dict V) (k : String) : Option V → Dict V
+  | some v => dset d k v
+  | none => d
+
 /-- the optional fields, each behind the test the code uses -/
 def fields (e : Exp) (circuitless inputless : Bool) (base : Dict V) : Dict V :=
-  let pl := if circuitless then base else dset base "circuit" (.circ e.circ e.size)
-  let pl := match inputField e inputless with
-    | some s => dset pl "input_state" (.state s)
-    | none => pl
-  let pl := if e.params ≠ [] then dset pl "parameters" (.params e.params) else pl
-  let pl := match e.post with
-    | some p => dset pl "postselect" (.post p)
-    | none => pl
-  let pl := if e.heralds ≠ [] then dset pl "heralds" (.heralds e.heralds) else pl
-  match e.noise with
-  | some n => dset pl "noise" (.noise n)
-  | none => pl
+  let pl := oset base "circuit" (if circuitless then none else some (.circ e.circ e.size))
+  let pl := oset pl "input_state" ((inputField e inputless).map V.state)
+  let pl := oset pl "parameters" (if e.params ≠ [] then some (.params e.params) else none)
+  let pl := oset pl "postselect" (e.post.map V.post)
+  let pl := oset pl "heralds" (if e.heralds ≠ [] then some (.heralds e.heralds) else none)
+  oset pl "noise" (e.noise.map V.noise)
 
 /-- `_set_min_photons_parameter()` -/
 def syncFilterParam (e : Exp) : Exp :=
